@@ -46,6 +46,13 @@ func (sb *schemaBuilder) getType(nodeType reflect.Type, forceListEntryNonNull bo
 		return &graphql.NonNull{Type: &graphql.Enum{Type: typeName, Values: values, ReverseMap: sb.enumMappings[nodeType].ReverseMap}}, nil
 	}
 
+	// A named basic type that marshals itself as text (type Level int with
+	// MarshalText) is rendered by its MarshalText, so it is a string, not the
+	// scalar its kind suggests.
+	if isTextMarshalerAlias(nodeType) {
+		return sb.getTextMarshalerType(nodeType)
+	}
+
 	if typeName, ok := getScalar(nodeType); ok {
 		return &graphql.NonNull{Type: &graphql.Scalar{Type: typeName}}, nil
 	}
@@ -93,6 +100,27 @@ func (sb *schemaBuilder) getType(nodeType reflect.Type, forceListEntryNonNull bo
 	default:
 		return nil, fmt.Errorf("bad type %s: should be a scalar, slice, or struct type", nodeType)
 	}
+}
+
+// isTextMarshalerAlias reports whether typ (or the type it points to) is a named
+// type of a basic kind that implements encoding.TextMarshaler.
+func isTextMarshalerAlias(typ reflect.Type) bool {
+	if !typ.Implements(textMarshalerType) {
+		return false
+	}
+	if typ.Kind() == reflect.Ptr {
+		typ = typ.Elem()
+	}
+	if typ.PkgPath() == "" {
+		return false
+	}
+	switch typ.Kind() {
+	case reflect.Bool, reflect.String, reflect.Float32, reflect.Float64,
+		reflect.Int, reflect.Int8, reflect.Int16, reflect.Int32, reflect.Int64,
+		reflect.Uint, reflect.Uint8, reflect.Uint16, reflect.Uint32, reflect.Uint64:
+		return true
+	}
+	return false
 }
 
 // getTextMarshalerType returns a graphQL type that can be used to parse a
